@@ -129,7 +129,12 @@ func c12Flat(c *Case) {
 
 // anyNodeSetExpr draws a node-set expression from every generator of the harness.
 func anyNodeSetExpr(g *xgen.G, env *xgen.Env) xref.Expr {
-	switch g.Intn(7) {
+	switch g.Intn(9) {
+	case 7:
+		// reverse() is a node-set expression too: count(reverse(x)), reverse(reverse(x)), (reverse(x))
+		return xref.Call{Name: "reverse", Args: []xref.Expr{g.FreePath(1+g.Intn(2), env.Names)}}
+	case 8:
+		return xref.Group{X: xref.Call{Name: "reverse", Args: []xref.Expr{g.FlatPath(env.Names)}}}
 	case 0, 1:
 		return g.FreePath(1+g.Intn(3), env.Names)
 	case 2:
